@@ -183,6 +183,9 @@ func genHeapAndSlice(prof string) genFunc {
 				continue
 			}
 			p := heapProgram(r, prof)
+			if prof == "C09" && !p.broken {
+				p.viewsOwnStorage()
+			}
 			ops := make([]string, len(p.ops))
 			for j, o := range p.ops {
 				ops[j] = o.coq()
